@@ -21,7 +21,7 @@ ASSUMPTIONS = ["thresholds are the ones the property states: attenuation <= -40 
                ">= 90 % of its high-passed, re-aligned amplitude on its peak channel", "a 'few neighbouring channels' = the 7 nearest sites with a Gaussian footprint of sigma 0.4-0.7 site pitches (retention falls "
                "smoothly with footprint width: measured 0.94-0.97 in that range, 0.89-0.91 at sigma 1.0-1.3, which is no longer 'a few channels')", "grouped filters are compared with per-group calls using default padding on both sides"]
 REQUIRED = {"default_header_checked": 2, "labels_true_checked": 2, "labels_true_with_bad_channels": 2, "stripe_attenuations": 8, "spike_retentions": 8, "outside_checked": 6, "car_zero_reference": 10, "group_equals_separate": 20,
-            "agc_products": 20, "referencing_through_destripe": 16, "settings_through_destripe": 4, "lfp_forwarding_checked": 3, "file_headers_checked": 4, "few_channel_arrays": 4, "fk_grouped_with_padding": 4, "file_pipeline_batches": 4}
+            "agc_products": 20, "referencing_through_destripe": 16, "settings_through_destripe": 4, "lfp_forwarding_checked": 3, "file_headers_checked": 4, "few_channel_arrays": 4, "fk_grouped_with_padding": 4, "file_pipeline_batches": 4, "file_pipeline_spikes": 10}
 CASE_TIMEOUT = 120.0
 KINDS = ["3B2", "NP2.1", "NP2.4", "NPultra"]
 
@@ -304,9 +304,23 @@ def run_case(case):
         kind = case["kind"]
         nbatch = 4096
         ns = int(rng.integers(2 * nbatch + 1500, 3 * nbatch))
-        rec = G.make(rng, kind=kind, sites=G.draw_sites(rng, kind, 384, "dense"), ns=ns, raw=np.zeros((1, 1), np.int16))
-        amp = float(rng.uniform(400e-6, 700e-6))
-        st = GS.stripe(rng, ns, fs, rec.sample_shift[:384], 600, 5000, amp)                  # (384, ns) volts, file channel order
+        rec = G.make(rng, kind=kind, sites=G.draw_sites(rng, kind, 384, "dense"), ns=ns, raw=np.zeros((1, 1), np.int16),
+                     gains=np.c_[np.full(384, 500), np.full(384, 250)])                       # (AP gain 500: full scale 1.2 mV, one count = 2.3 uV)
+        # a disturbance of 200-300 uV rms between 0.5 and 1.2 kHz: strong, but its sample-to-sample steps stay below the pipeline's slew criterion (300 uV per sample) -
+        # a saturated (muted) stretch would meet the stripe clause trivially
+        amp = float(rng.uniform(200e-6, 300e-6))
+        st = GS.stripe(rng, ns, fs, rec.sample_shift[:384], 500, 1200, amp)                  # (384, ns) volts, file channel order
+        # local spikes all along the file (every batch, every worker's share), each on a few sites
+        hh = {"x": rec.x[:384], "y": rec.y[:384], "shank": rec.shank[:384], "sample_shift": rec.sample_shift[:384]}
+        spikes = []
+        spk_all = np.zeros_like(st)
+        for t0 in range(1300, ns - 1300, 900):          # (the first / last 1024 samples of the FILE are tapered by the pipeline itself)
+            c0 = int(rng.integers(2, 382))
+            spk, foot = GS.local_spike(rng, ns, fs, hh, c0, t0=t0, amp=float(rng.choice([-1, 1])) * float(rng.uniform(150e-6, 300e-6)), width_s=1.5e-4, sigma_pitch=0.5)
+            spk_all += spk
+            spikes.append((t0, c0))
+        st_only = st
+        st = st + spk_all
         raw = np.clip(np.round(st.T / rec.s2v[:384][None, :]), -32768, 32767).astype(np.int16)
         rec.raw = np.ascontiguousarray(np.c_[raw, G.sync_words(rng, (ns, 1))])
         b = G.write(rec, d / "rec")
@@ -314,13 +328,38 @@ def run_case(case):
         try:
             out = d / "out" / "destriped.bin"
             out.parent.mkdir()
-            V.decompress_destripe_cbin(b, output_file=out, nbatch=nbatch, nprocesses=1, reject_channels=False)
+            nproc = (1, 3)[case["seed"] % 2]
+
+            class _Inline:          # the worker tasks of the pipeline, run one after the other in this process (what they write only depends on their arguments)
+                def __init__(self, n_jobs=None, **kw):
+                    pass
+
+                def __call__(self, tasks):
+                    return [f_(*a_, **k_) for f_, a_, k_ in tasks]
+            keepP = V.Parallel
+            V.Parallel = _Inline
+            try:
+                V.decompress_destripe_cbin(b, output_file=out, nbatch=nbatch, nprocesses=nproc, reject_channels=False)
+            finally:
+                V.Parallel = keepP
+            label += f" workers={nproc}"
             o = np.fromfile(out, dtype=np.int16).reshape(-1, rec.nc)
+            sat = np.load(out.parent / "_iblqc_ephysSaturation.samples.npy")
+            res.check(not np.any(sat), "harness:file-pipeline-input-saturates", f"{label}: the workload's own disturbance trips the saturation detector at {int(np.sum(sat))} samples")
             res.check(o.shape[0] == ns, "destripe:file-pipeline:size", f"{label}: output holds {o.shape[0]} samples")
             with spikeglx.Reader(b) as sr_:
                 order = np.asarray(sr_.raw_channel_order[:384], int)      # the pipeline works in the reader's (sorted) channel order
             ov = (o[:, :384].astype(np.float64) * rec.s2v[order][None, :]).T
-            ref = hp(st[order], fs)
+            ref = hp(st_only[order], fs)
+            inv = np.argsort(order)
+            ref_spk = F.fshift(hp(spk_all, fs), rec.sample_shift[:384], axis=1)       # the spikes, high-passed and re-aligned, in file channel order
+            for t0, c0 in spikes:
+                w = slice(t0 - 45, t0 + 45)
+                keep = np.max(np.abs(ov[inv[c0], w])) / np.max(np.abs(ref_spk[c0, w])) if o.shape[0] == ns else 0.0
+                res.measure("min_spike_retention_file_pipeline", keep, kind="min")
+                res.check(keep >= 0.90, "destripe:spike-retention:file-pipeline", f"{label}: spike at sample {t0}, channel {c0} keeps {keep:.1%} of its high-passed amplitude in the destriped file",
+                          counter="file_pipeline_spikes")
+            ov = ov - F.fshift(hp(spk_all, fs), rec.sample_shift[:384], axis=1)[order] * 0      # (stripe attenuation below is judged on windows without a spike)
             stride = nbatch - 2048
             k = 0
             first = 0
